@@ -14,7 +14,9 @@ RULE = (
     "the separators '...', ':' and the one-character ellipsis chosen per item; random blanks) probed with every finite "
     "limit, its +-1 neighbours (decimal: +- one unit in the next digit), far values and random values; plus the "
     "exhaustive sweep of all 1-2 item descriptions with limits in {-2..2, none} x values -4..4 (Range) and the same "
-    "limits written as decimals x values in steps of 0.5 (DecimalRange). A case is (description, value); it is "
+    "limits written as decimals x values in steps of 0.5 (DecimalRange); plus all pairs of the 33 ASCII punctuation "
+    "characters and the blank as quoted limits, in every quoted spelling (both quote styles, backslash escapes, \\x escapes) x "
+    "every separator, alone, around a numeric item, and as open items. A case is (description, value); it is "
     "non-trivial when the value is on or next to a finite limit of the description; a constructor call counts as a "
     "case of its own. Distinctness by digest of (operation, description, value)."
 )
@@ -228,6 +230,50 @@ def run_sweep(ctx, ranges, decimal):
     return len(descriptions)
 
 
+SPECIALS = [chr(v) for v in range(32, 127) if not chr(v).isalnum()]
+
+
+def special_spellings(c):
+    """Every quoted spelling of one punctuation character (the character itself in both quote styles, escaped where
+    the quote style needs it, and the backslash escapes)."""
+    out = []
+    for q in "'\"":
+        if c == q or c == "\\":
+            out.append(q + "\\" + c + q)
+        else:
+            out.append(q + c + q)
+    out.append('"\\x%02x"' % ord(c))
+    return out
+
+
+def run_specials(ctx, ranges):
+    """Punctuation as limits: all pairs a < b of the 33 ASCII punctuation characters and the blank, in every quoted
+    spelling, joined by every separator, alone and around a numeric item - the characters that mean something to the
+    description's own syntax (quotes, backslash, comma, colon, dots, hash) are exactly the ones a tokenizer can trip on."""
+    index = 0
+    for ia, a in enumerate(SPECIALS):
+        for b in SPECIALS[ia + 1:]:
+            index += 1
+            if not ctx.mine(index):
+                continue
+            va, vb = ord(a), ord(b)
+            probes = sorted({va - 1, va, va + 1, vb - 1, vb, vb + 1, 199, 200, 205, 210, 211})
+            for ta in special_spellings(a):
+                for tb in special_spellings(b):
+                    for sep in SEPS:
+                        for text in (ta + sep + tb, ta + ", 200" + sep + "210, " + tb, ta + "," + tb + sep, sep + ta + " , " + tb):
+                            ctx.count("specials.descriptions")
+                            try:
+                                r = ranges.Range(text)
+                            except Exception:
+                                continue  # the monitor has judged the refusal
+                            for v in probes:
+                                try:
+                                    r.validate("x", v)
+                                except Exception:
+                                    pass
+
+
 def run(ctx):
     from cutplace import ranges
 
@@ -286,6 +332,7 @@ def run(ctx):
                 pass
     run_sweep(ctx, ranges, False)
     run_sweep(ctx, ranges, True)
+    run_specials(ctx, ranges)
     ctx.exhaustive = True
     ctx.note("exhaustive part: all 1-2 item descriptions with limits in {-2..2, none}, every separator spelling per item, x values -4..4 (Range) / -4..4 step 0.5 (DecimalRange); the generated part is sampled")
 
